@@ -404,6 +404,12 @@ func (*hookT) Acquire(m *avfs.VerifRWMutex, write bool) bool {
 			}
 		}
 
+		// no simulated client is running: a lock that is not free now was left held by a call that has returned,
+		// and the harness would wait for it for ever.
+		if directGuard && !m.VerifProbe(write) {
+			panic(errDirectBlocked)
+		}
+
 		return false
 	}
 
@@ -955,10 +961,42 @@ func panicSite(stack []byte) string {
 // spinning for ever.
 var (
 	directBudget, directSteps int64
-	errDirectOverrun          = errors.New("observation exceeded its budget of lock events") //nolint:gochecknoglobals // sentinel.
+	errDirectOverrun          = errors.New("observation exceeded its budget of lock events")                    //nolint:gochecknoglobals // sentinel.
+	errDirectBlocked          = errors.New("observation needs a lock that a call which has returned left held") //nolint:gochecknoglobals // sentinel.
 	// Overrun is set when an observation was cut: the runner turns it into a verdict and ends the worker.
 	Overrun string //nolint:gochecknoglobals // read by RunWorker after every run.
 )
+
+// directGuard is on while a property runs (RunGuarded): see Acquire.
+var directGuard bool //nolint:gochecknoglobals // main goroutine only.
+
+// RunGuarded runs one property run and turns a direct call of the harness that cannot complete (a lock left
+// held by a call that returned, an observation that never ends) into the Overrun verdict instead of a dead worker.
+func RunGuarded(run func() RunResult) (res RunResult) {
+	if RaceBuild {
+		return run()
+	}
+
+	directGuard = true
+
+	defer func() {
+		directGuard = false
+		directBudget = 0
+
+		if r := recover(); r != nil {
+			if err, ok := r.(error); ok && (errors.Is(err, errDirectBlocked) || errors.Is(err, errDirectOverrun)) {
+				Overrun = err.Error()
+				res = RunResult{}
+
+				return
+			}
+
+			panic(r)
+		}
+	}()
+
+	return run()
+}
 
 // GuardDirect runs f (direct library calls on the main goroutine) under a budget of lock events.
 // It returns "" or why f was cut; a panic of the library itself is reported the same way.
